@@ -204,7 +204,7 @@ impl Fam {
     pub fn skim_segment(&self, rng: &mut Rng, ctx: &Ctx) -> ((f64, f64), (f64, f64)) {
         let tag = ctx.tri.tag();
         let tiny = |rng: &mut Rng| -> f64 {
-            let k = if tag == 'd' { *rng.pick(&[60, 200, 400, 600, 1000, 1070]) } else { *rng.pick(&[30, 100, 130, 145]) };
+            let k = if tag == 'd' { *rng.pick(&[60, 400, 600, 700, 1000, 1070]) } else { *rng.pick(&[30, 80, 100, 130, 145]) };
             2f64.powi(-k) * (1 + rng.below(3)) as f64
         };
         let s1 = if rng.chance(500) { 1.0 } else { -1.0 };
@@ -603,7 +603,7 @@ fn query(rng: &mut Rng, ctx: &mut Ctx, fam: &Fam, class: &str) {
             // end points exactly in the interior of an existing edge (mid or quarter point; exact
             // on the small-integer families): a segment that ends on the boundary of the face it
             // has just entered, or starts on an edge
-            if rng.chance(40) {
+            if rng.chance(100) {
                 let (a, b) = fam.skim_segment(rng, ctx);
                 p = a;
                 q = b;
@@ -720,7 +720,7 @@ fn query(rng: &mut Rng, ctx: &mut Ctx, fam: &Fam, class: &str) {
             if ctx.tri.kind() == "cdt" {
                 let mut p = fam.qpoint_tiny(rng, ctx);
                 let mut q = fam.qpoint_tiny(rng, ctx);
-                if rng.chance(60) {
+                if rng.chance(120) {
                     let (a, b) = fam.skim_segment(rng, ctx);
                     p = a;
                     q = b;
